@@ -171,3 +171,67 @@ def class_of(node):
 
 def names_read(expr):
     return {n.id for n in ast.walk(expr) if isinstance(n, ast.Name)}
+
+
+def conjuncts(test):
+    """operands of a (possibly nested) `and` test; a plain test is its own single conjunct."""
+    if isinstance(test, ast.BoolOp) and isinstance(test.op, ast.And):
+        out = []
+        for v in test.values:
+            out.extend(conjuncts(v))
+        return out
+    return [test]
+
+
+def guarding_ifs(node, stop=None):
+    """(if-statement, branch) pairs enclosing node, innermost first; branch is 'body' or 'orelse'."""
+    out = []
+    p = node
+    while p is not None and p is not stop:
+        par = getattr(p, '_parent', None)
+        if isinstance(par, ast.If):
+            if any(p is x for x in par.body):
+                out.append((par, 'body'))
+            elif any(p is x for x in par.orelse):
+                out.append((par, 'orelse'))
+        p = par
+    return out
+
+
+def eval3(test, atom):
+    """three-valued evaluation of a boolean expression; atom(node) -> True/False/None for the leaves."""
+    if isinstance(test, ast.UnaryOp) and isinstance(test.op, ast.Not):
+        v = eval3(test.operand, atom)
+        return None if v is None else (not v)
+    if isinstance(test, ast.BoolOp):
+        vals = [eval3(v, atom) for v in test.values]
+        if isinstance(test.op, ast.And):
+            if any(v is False for v in vals):
+                return False
+            return True if all(v is True for v in vals) else None
+        if any(v is True for v in vals):
+            return True
+        return False if all(v is False for v in vals) else None
+    if isinstance(test, ast.Constant):
+        return bool(test.value)
+    return atom(test)
+
+
+def cfg_reach_under(cfg, atom, starts=None):
+    """nodes reachable from the entry when every test is evaluated with eval3(test, atom): a decided test follows one
+    edge only."""
+    seen = set()
+    stack = list(starts or [cfg.entry])
+    while stack:
+        n = stack.pop()
+        if n in seen:
+            continue
+        seen.add(n)
+        v = None
+        if n.kind == 'test' and n.ast is not None:
+            v = eval3(n.ast, atom)
+        for (m, lab) in cfg.succ[n]:
+            if v is not None and lab in (True, False) and lab != v:
+                continue
+            stack.append(m)
+    return seen
